@@ -699,6 +699,17 @@ func (proxy *Server) repoGCHandler(w http.ResponseWriter, r *http.Request) {
 	var ipfsRepoGC ipfsRepoGCResp
 	mError := multiError{}
 	for _, gc := range repoGC.PeerMap {
+		if gc.Error != "" {
+			// This peer could not garbage collect at all. Report it
+			// like the errors that belong to no key.
+			if streamErrors {
+				if err := enc.Encode(ipfsRepoGCResp{Error: gc.Error}); err != nil {
+					logger.Error(err)
+				}
+			} else {
+				mError.add(gc.Error)
+			}
+		}
 		for _, key := range gc.Keys {
 			if streamErrors {
 				ipfsRepoGC = ipfsRepoGCResp{Key: key.Key, Error: key.Error}
